@@ -69,6 +69,37 @@ func init() {
 	})
 }
 
+// CodecL is a column type with a lenient custom codec: a batch is one gob-encoded slice decoded
+// straight into the destination rows, and the decoder does not compare the number of values it
+// got with the number of rows it was asked for (nothing in frame.Ops asks a codec to). Only the
+// stream's own checksum protects the batch length of a frame made of such columns.
+type CodecL struct {
+	X int
+	S string
+}
+
+func init() {
+	frame.RegisterOps(func(slice []CodecL) frame.Ops {
+		return frame.Ops{
+			Less: func(i, j int) bool {
+				return slice[i].X < slice[j].X || slice[i].X == slice[j].X && slice[i].S < slice[j].S
+			},
+			HashWithSeed: func(i int, seed uint32) uint32 {
+				h := uint32(slice[i].X)*2654435761 ^ seed
+				for _, b := range []byte(slice[i].S) {
+					h = h*16777619 ^ uint32(b)
+				}
+				return h
+			},
+			Encode: func(e frame.Encoder, i, j int) error { return e.Encode(slice[i:j]) },
+			Decode: func(d frame.Decoder, i, j int) error {
+				p := slice[i:j:j]
+				return d.Decode(&p)
+			},
+		}
+	})
+}
+
 // I32x3 is a 12-byte pointer-free struct.
 type I32x3 struct{ A, B, C int32 }
 
@@ -209,6 +240,18 @@ func init() {
 		Gen: func(r *vf.Rand) any {
 			return Codec3{A: 1 + r.Intn(1000), B: -1 - r.Intn(1000), C: 1 + int(r.Uint64()>>40)}
 		}})
+	regCol(&colType{Name: "codecl", Typ: reflect.TypeOf(CodecL{}), Key: true,
+		Gen: func(r *vf.Rand) any {
+			return CodecL{X: 1 + r.Intn(1000), S: string(rune('a'+r.Intn(26))) + fmt.Sprint(1+r.Intn(99))}
+		},
+		Small: func(r *vf.Rand) any { return CodecL{X: 1 + r.Intn(3), S: string(rune('a' + r.Intn(2)))} },
+		Cmp: func(a, b any) int {
+			x, y := a.(CodecL), b.(CodecL)
+			if x.X != y.X {
+				return cmpOrdered[int](x.X, y.X)
+			}
+			return cmpOrdered[string](x.S, y.S)
+		}})
 	regCol(&colType{Name: "ints", Typ: reflect.TypeOf([]int(nil)),
 		Gen: func(r *vf.Rand) any {
 			if r.Chance(0.2) {
@@ -296,6 +339,7 @@ var frameSchemas = []schema{
 	{[]string{"int", "tri8", "i32x3"}, 1},
 	{[]string{"uint8", "i16x5"}, 1},
 	{[]string{"int", "codec3", "string"}, 1},
+	{[]string{"codecl", "codecl"}, 1},
 }
 
 type row []any
